@@ -27,6 +27,7 @@ class SameNamedTransform:
     def compare_to(self, interp, ctx, name, got):
         for be in ("numpy", "dask"):
             x = sym_array(f"probe_{be}", (z3.Int("probe_n"), z3.Int("probe_m")), "complex128", be)
+            x.owner = frozenset([f"param:probe_{be}"])      # the caller's array: any write to it breaks C14
             with ctx.scope():
                 ctx.assume(z3.And(z3.Int("probe_n") >= 1, z3.Int("probe_m") >= 1), why="probe dims")
                 for kw in ({}, {"axis": 0} if self.name in ("fft", "ifft", "rfft", "irfft", "hfft", "ihfft") else {"norm": "ortho"}):
@@ -49,7 +50,12 @@ class SameNamedTransform:
         if self.name in ("irfft", "irfft2", "irfftn", "hfft"):
             pass
         ref = getattr(scipy.fft, self.name)
-        a, b = got(x), ref(x)
+        x0 = x.copy()
+        a = got(x)
+        if not np.array_equal(x, x0):
+            out.append(Mismatch("frame.input-mutated[pb.fft." + self.name + " argument]", "changed by the call", "bit-identical"))
+            x = x0.copy()
+        b = ref(x)
         if a.shape != b.shape or a.dtype != b.dtype or not np.array_equal(a, b):
             out.append(Mismatch(where + ".numpy", "differs", "scipy.fft." + self.name))
         xd = da.from_array(x, chunks=(-1, -1))
